@@ -180,18 +180,29 @@ def gen_x_source(rng, nprng, N, comp, amps):
         else:
             ops_ += [dict(cls="BSgate", regs=[a, b], pars=[PI / 4, 0.0]), dict(cls="Sgate", regs=[a], pars=[r, phi]),
                      dict(cls="Sgate", regs=[b], pars=[-r, phi]), dict(cls="BSgate", regs=[a, b], pars=[-PI / 4, 0.0])]
+    if sq_mode == "s2" and ops_ and rng.random() < 0.08:   # something between the squeezers
+        j = rng.randrange(N)
+        ins = rng.choice([dict(cls="Rgate", regs=[j], pars=[0.5]), dict(cls="BSgate", regs=[j, j + N], pars=[0.25, 0.0]),
+                          dict(cls="MZgate", regs=[j, j + N], pars=[0.25, 0.5])])
+        ops_.insert(rng.randrange(len(ops_) + 1), ins)
+        kind.append("between-s2")
     kind.append(sq_mode)
     keys = [i for i, _, _ in s2]
     ngroups = len({k for k in keys if keys.count(k) > 1})
     kind.append(f"dupgroups{min(ngroups, 3)}")
     # ---- interferometer part
     ik = rng.choice(["interf", "interf", "gates", "none", "asym", "mix"] if N >= 2 else ["interf", "none", "gates"])
-    if rng.random() < 0.8 and ik in ("asym", "mix"):
+    if rng.random() < 0.7 and ik in ("asym", "mix"):
         ik = "interf"
     if ik == "interf" or ik == "asym":
         uk = rng.choice(U_KINDS if N >= 2 else ["identity", "phases"])
         U = hw12.rand_unitary(nprng, N, uk)
-        U2 = U if ik == "interf" else hw12.rand_unitary(nprng, N, "haar")
+        if ik == "interf":
+            U2 = U
+        else:  # different unitary on the idler half: unrelated, or equal moduli with phases before / after
+            v = rng.choice(["haar", "phases-before", "phases-after"])
+            D = np.diag(np.exp(1j * nprng.uniform(0.3, 2.8, N)))
+            U2 = hw12.rand_unitary(nprng, N, "haar") if v == "haar" else (U @ D if v == "phases-before" else D @ U)
         ops_.append(dict(cls="Interferometer", regs=list(range(N)), U=enc_U(U)))
         ops_.append(dict(cls="Interferometer", regs=list(range(N, n)), U=enc_U(U2)))
         kind.append(f"U:{uk}")
